@@ -29,6 +29,7 @@ type wsEnv struct {
 	writeN               int      // number of WriteMessage calls so far
 	failWrite            int      // the k-th WriteMessage fails (0 = never)
 	writers              int      // goroutines currently inside conn.WriteMessage
+	stall      chan struct{} // while open: data-frame writes block in the transport (a peer that does not read); closed = transport continues
 	failCtl              bool     // every control-frame (close / ping) write fails: the transport is broken for writing when the local close starts
 	failedCtl            int      // control-frame writes that failed
 	failedData           int      // data-frame writes that failed by injection
@@ -83,6 +84,9 @@ func vWriteMessage(c *websocket.Conn, messageType int, data []byte) error {
 		return errors.New("concurrent write")
 	}
 	zzvrt.Yield()
+	if env.stall != nil && messageType == websocket.BinaryMessage {
+		<-env.stall
+	}
 	env.writers--
 	env.writeN++
 	if env.connClosed {
